@@ -3,7 +3,7 @@ import MtblProofs.TpLive
 import MtblProofs.PoolWriterProofs
 import MtblProofs.PoolSorterProofs
 import MtblProofs.TpShareProofs
-import MtblProofs.TpKShape
+import MtblProofs.TpKOrder
 import MtblProofs.OwnerProofs
 /-
   C13 — Pooled writers and sorters: same result under every interleaving, no hangs.
@@ -222,6 +222,32 @@ theorem C13_kclient_idle {n max njobs : Nat} {o : Bool} {s : St} (hr : Reachable
     itself or waited for (unordered): done with the result in place; told to exit: running with no job -/
 theorem C13_kclient_protocol {n max njobs : Nat} {o : Bool} {s : St} (hr : Reachable n max njobs o s) (t : Nat) :
     Good s.ordered s.idle s.opc s.cl t s.thr[t]! := (inv_reachable hr).2 t
+
+/-- ordered delivery (the mode pooled writers use) per client, whatever the other clients sharing the pool do: the results
+    delivered to client c so far are exactly those of its jobs 0, 1, 2, … in this order — none twice, none out of order,
+    none that was not submitted -/
+theorem C13_kclient_order {n max njobs : Nat} {s : St} (hr : Reachable n max njobs true s) (ho : s.ordered = true) (c : Nat) :
+    s.cl[c]!.delivered = (List.range s.cl[c]!.delivered.length).map some := order_reachable hr ho c
+
+/-- … and when the client's thread has returned from `result_handler_destroy` it has been delivered the results of all its
+    jobs, in order: this is what `C13_writer` takes from the pool for each of several pooled writers sharing it -/
+theorem C13_kclient_complete {n max njobs : Nat} {o : Bool} {s : St} (hr : Reachable n max njobs o s)
+    (ho : s.ordered = true) (c : Nat) (hd : s.cl[c]!.pc = .done) :
+    s.cl[c]!.delivered = (List.range s.njobs).map some := complete_reachable hr ho c hd
+
+/-- the invariant behind both: delivered results, the one in the handler's hands, the jobs of the queued threads in queue
+    order and the job just handed over are, in this order, jobs 0, 1, 2, … of that client -/
+theorem C13_kclient_line {n max njobs : Nat} {o : Bool} {s : St} (hr : Reachable n max njobs o s) (ho : s.ordered = true)
+    (c : Nat) : line s.thr s.cl[c]! = (List.range (s.cl[c]!.nextJob + pend s.cl[c]!.pc)).map some :=
+  jord_reachable hr ho c
+
+/-- non-vacuity of `C13_kclient_complete`: a reachable final state — two clients sharing a pool of ONE worker, two jobs each,
+    run to the end under a first-enabled-thread scheduler — in which both client threads have returned -/
+example : Reachable 2 1 2 true (runAuto 200 (init 2 1 2 true)) ∧
+    ((runAuto 200 (init 2 1 2 true)).ordered = true ∧ (runAuto 200 (init 2 1 2 true)).opc = .done ∧
+     (runAuto 200 (init 2 1 2 true)).cl.toList.map (·.pc) = [CPc.done, CPc.done] ∧
+     (runAuto 200 (init 2 1 2 true)).cl.toList.map (·.delivered) = [[some 0, some 1], [some 0, some 1]]) :=
+  ⟨reachable_runAuto 200 .init, by decide +kernel⟩
 
 /-- non-vacuity: a reachable state with two clients each holding a worker (the owner starts both clients; each creates its
     handler, takes a worker slot below the maximum and creates the worker) -/
